@@ -148,6 +148,24 @@ def apply():
 
     _bl.SymbolicNumberAble.__format__ = _num_format
     APPLIED.append("E5 placeholder-text-for-symbolic-scalars-in-repr-and-fstrings")
+    # E7: CrossHair looks up registered contracts for every callable class attribute; labrea's unhashable callables
+    # (Value defines __eq__ without __hash__; dataset-class members are Values) make that lookup raise TypeError
+    from crosshair import condition_parser as _cp
+    from crosshair import register_contract as _rc
+
+    _orig_get_contract = _rc.get_contract
+
+    def _get_contract(fn):
+        try:
+            hash(fn)
+        except TypeError:
+            return None
+        return _orig_get_contract(fn)
+
+    _rc.get_contract = _get_contract
+    _cp.get_contract = _get_contract
+    _c.get_contract = _get_contract
+    APPLIED.append("E7 contract-lookup-tolerates-unhashable-callables")
     _orig_dict = _c._PATCH_REGISTRATIONS[_b.dict]
     _c._PATCH_REGISTRATIONS[_b.dict] = _dict_any_pairs
     APPLIED.append("E6 dict-of-unsized-pairs")
